@@ -6,7 +6,7 @@ set -u
 WT=/tmp/wt_retest_$$; VC=/tmp/verif_retest_$$
 HEAD=$(git -C /repo rev-parse --short HEAD)
 git -C /repo worktree add --detach $WT $HEAD >/dev/null 2>&1 || exit 2
-mkdir -p $VC && rsync -a --exclude target --exclude .scratch --exclude .git --exclude replays /verif/ $VC/
+mkdir -p $VC && rsync -a --exclude target --exclude "target-*" --exclude .scratch --exclude .git --exclude replays /verif/ $VC/
 [ -d /verif/target ] && cp -r /verif/target $VC/target
 for d in /verif/seeded/*/; do
   id=$(basename $d)
